@@ -23,7 +23,7 @@ RULE = (
     "Mach number (area-weighted sweep and t/c), > 0 above, non-decreasing (strictly increasing once positive) in Mach and CL; "
     "onset located by bisection on the component: it coincides with the Korn value, the difference quotient CDw(M*+h)/h -> 0 "
     "(C1) and CDw(M*+2h) = 16 CDw(M*+h) (the fourth-power law of the property's mechanism).  mesh_independence: constant-chord, "
-    "untwisted, uncambered wings (sweep, dihedral drawn) in two discretisations (nx, ny, uniform/cosine blends, left/right half "
+    "untwisted, uncambered wings (sweep, dihedral drawn) in two discretisations (nx, ny, uniform/cosine blends, geometric spanwise clustering with strips down to 1e-4 of the span, left/right half "
     "or full span, same symmetry flag): CDv and CDw (same CL, uniform t/c) agree to 1e-10, also CDv through AeroPoint.  "
     "switches_group: AeroPoint with all four flag combinations: off => CDv, CDw exactly 0.0, CD = CDi + CDv + CDw + CD0, and "
     "switching one estimate does not change the other terms.  non-trivial: option on and a positive estimate in at least one "
@@ -107,6 +107,9 @@ def discretisation():
             nyh=st.integers(2, 7),
             span_blend=S.fl(0.0, 1.0, 0.0, 1.0),
             chord_blend=S.fl(0.0, 1.0, 0.0, 1.0),
+            # geometric spanwise clustering (ratio of neighbouring strip widths; 1 = as built): strips down to 1e-4 of the span
+            cluster=st.one_of(st.just(1.0), st.floats(1.0, 6.0), st.sampled_from([3.0, 4.5, 6.0])),
+            cluster_tip=st.booleans(),
         )
     )
 
@@ -378,7 +381,32 @@ def rect_mesh(desc, disc):
                 winglet=0.0, winglet_dih=60.0)
     md = dict(kind=kind, nx=disc["nx"], nyh=disc["nyh"], span_blend=disc["span_blend"], chord_blend=disc["chord_blend"],
               root_twist=0.0, root_x=desc["root"][0], root_y=0.0, root_z=desc["root"][1], noise_amp=0.0, noise_seed=0, side=side)
-    return build_mesh(md), kind
+    return cluster_span(build_mesh(md), kind, float(disc.get("cluster", 1.0)), bool(disc.get("cluster_tip", True))), kind
+
+
+def cluster_span(mesh, kind, ratio, at_tip):
+    """re-distribute the spanwise stations of a straight-edged (constant chord, linear sweep / dihedral) half or full wing
+    geometrically: neighbouring strip widths in the given ratio, finest at the tip or at the root.  The planform is unchanged."""
+    if ratio == 1.0:
+        return mesh
+    mesh = mesh.copy()
+    ny = mesh.shape[1]
+    halves = [(0, ny - 1)] if kind != "full" else [(0, (ny - 1) // 2), ((ny - 1) // 2, ny - 1)]
+    for i0, i1 in halves:
+        n = i1 - i0
+        if n < 2:
+            continue
+        w = ratio ** np.arange(n)
+        eta = np.concatenate([[0.0], np.cumsum(w) / np.sum(w)])
+        # which end of this run of columns is the tip: the one farther from the symmetry plane / centre line
+        tip_first = abs(mesh[0, i0, 1]) > abs(mesh[0, i1, 1])
+        fine_first = (tip_first == at_tip)
+        if not fine_first:
+            eta = 1.0 - eta[::-1]
+        a, b = mesh[:, i0, :].copy(), mesh[:, i1, :].copy()
+        for j in range(1, n):
+            mesh[:, i0 + j, :] = a + eta[j] * (b - a)
+    return mesh
 
 
 def verdict_independence(desc):
@@ -429,8 +457,13 @@ def verdict_independence(desc):
         out.label("span_spacing_differs")
     if dA["chord_blend"] != dB["chord_blend"]:
         out.label("chord_spacing_differs")
+    wmin = min(float(np.min(r["g"]["widths"]) / np.sum(r["g"]["widths"])) for r in res)
+    if dA.get("cluster", 1.0) != 1.0 or dB.get("cluster", 1.0) != 1.0:
+        out.label("span_clustered")
+    out.label("narrowest_strip<1e-3_span" if wmin < 1e-3 else "narrowest_strip>=1e-3_span")
     out.label("CDw>0" if A["CDw"] > 0 else "CDw=0")
-    differs = (dA["nx"], dA["nyh"], dA["span_blend"], dA["chord_blend"]) != (dB["nx"], dB["nyh"], dB["span_blend"], dB["chord_blend"])
+    differs = (dA["nx"], dA["nyh"], dA["span_blend"], dA["chord_blend"], dA.get("cluster", 1.0)) != (
+        dB["nx"], dB["nyh"], dB["span_blend"], dB["chord_blend"], dB.get("cluster", 1.0))
     out.nontrivial = bool(differs and A["CDv"] > 0.0)
     return out
 
